@@ -562,8 +562,14 @@ class FT:
                 r = self.resolve_callable(e.func)
                 if r == ("builtin", d) and d in ("len", "int", "float", "bool", "str"):
                     return "scalar"
-                if r == ("builtin", d) and d in ("list", "sorted") and e.args and kind_of(e.args[0]) == "list":
-                    return "list"
+                if r == ("builtin", d) and d in ("list", "sorted") and len(e.args) == 1 and not e.keywords:
+                    k0 = kind_of(e.args[0])
+                    if k0 == "list":
+                        return "list"
+                    if k0.startswith("name:"):
+                        return "lc:" + k0[5:]      # a (shallow) copy of a named list: a label list if that one is
+                    if k0.startswith("lc:"):
+                        return k0
                 if r == ("builtin", d) and d in ("list", "dict", "set", "sorted"):
                     return "container"
                 if r is not None and r[0] == "ext":
@@ -595,6 +601,8 @@ class FT:
                     return "scalar"
                 if isinstance(e.slice, ast.Slice) and kind_of(e.value) in ("list",):
                     return "list"
+                if isinstance(e.slice, ast.Slice) and isinstance(e.value, ast.Name):
+                    return "sl:" + e.value.id       # a slice of a named object: a label list if that one is
                 return "other"
             if isinstance(e, (ast.List, ast.ListComp)):
                 if isinstance(e, ast.List) and all(kind_of(x) == "scalar" for x in e.elts) and e.elts:
@@ -673,6 +681,17 @@ class FT:
                             continue
                         if other in resolved:
                             ks.add(resolved[other])
+                        elif other in binds:
+                            ok = False
+                        else:
+                            ks.add("other")
+                    elif k.startswith("lc:") or k.startswith("sl:"):
+                        other = k[3:]
+                        if other == name:
+                            continue                 # x = list(x) / x = x[a:b] keeps x's kind
+                        if other in resolved:
+                            ks.add("list" if resolved[other] == "list" else
+                                   ("container" if k.startswith("lc:") else "other"))
                         elif other in binds:
                             ok = False
                         else:
@@ -1384,6 +1403,38 @@ class FT:
         else:
             self.bind(target, kinds, out)
 
+    def none_tests(self, test):
+        """(names known to be None when `test` is true, names known to be None when it is false)"""
+        def simple(t):
+            if isinstance(t, ast.Compare) and len(t.ops) == 1 and isinstance(t.left, ast.Name) and \
+                    isinstance(t.comparators[0], ast.Constant) and t.comparators[0].value is None and \
+                    self.is_local(t.left.id):
+                if isinstance(t.ops[0], ast.Is):
+                    return t.left.id, True
+                if isinstance(t.ops[0], ast.IsNot):
+                    return t.left.id, False
+            return None
+        r = simple(test)
+        if r is not None:
+            return ([r[0]], []) if r[1] else ([], [r[0]])
+        if isinstance(test, ast.BoolOp) and isinstance(test.op, ast.And):
+            # all conjuncts hold on the true branch
+            return [x[0] for x in map(simple, test.values) if x is not None and x[1]], []
+        if isinstance(test, ast.BoolOp) and isinstance(test.op, ast.Or):
+            # all disjuncts fail on the false branch
+            return [], [x[0] for x in map(simple, test.values) if x is not None and not x[1]]
+        return [], []
+
+    def none_bind(self, names):
+        out = []
+        for nm in names:
+            v = self.local(nm)
+            if v in self.scalar or v in self.empties:
+                continue
+            out.append(("assign", v, ("fresh", [])))
+            out.append(("assign", cont(v), ("fresh", [])))
+        return out
+
     # -- statements -------------------------------------------------------------------------------
     def block(self, stmts):
         out = []
@@ -1478,7 +1529,11 @@ class FT:
             return
         if isinstance(n, ast.If):
             self.ex(n.test, out)
-            out.append(("ite", self.block(n.body), self.block(n.orelse)))
+            # path condition of an `is None` test: on the branch where X is None, X is bound to the immutable
+            # singleton None, i.e. to no caller-owned mutable object
+            then_none, else_none = self.none_tests(n.test)
+            out.append(("ite", S_seq(self.none_bind(then_none) + [self.block(n.body)]),
+                        S_seq(self.none_bind(else_none) + [self.block(n.orelse)])))
             return
         if isinstance(n, ast.For):
             kinds = self.iter_kinds(n.iter, out)
